@@ -221,11 +221,15 @@ class _InlineTemps(ast.NodeTransformer):
                             anc = set()
                             for y in ast.walk(b):
                                 for z in ast.iter_child_nodes(y):
-                                    z._p = y
+                                    if not isinstance(z, (ast.expr_context, ast.operator, ast.cmpop, ast.boolop, ast.unaryop)):
+                                        z._p = y        # (context / operator nodes are shared singletons: never annotated)
                             y = uses[0]
                             while getattr(y, "_p", None) is not None:
                                 y = y._p
                                 anc.add(id(y))
+                            for y in ast.walk(b):
+                                if hasattr(y, "_p"):
+                                    del y._p
                             if any(isinstance(y, (ast.Call, ast.Await)) and id(y) not in anc for y in ast.walk(b)) or \
                                     any(isinstance(y, (ast.BoolOp, ast.IfExp, ast.Lambda, ast.ListComp, ast.SetComp, ast.DictComp, ast.GeneratorExp))
                                         for y in ast.walk(b)):
